@@ -694,6 +694,15 @@ impl Type<'_> {
 
 impl<'a> Parse<'a> for Type<'a> {
     fn parse(lexer: &mut Lexer<'a>) -> ParseResult<Self> {
+        lexer.enter()?;
+        let result = Self::parse_nested(lexer);
+        lexer.leave();
+        result
+    }
+}
+
+impl<'a> Type<'a> {
+    fn parse_nested(lexer: &mut Lexer<'a>) -> ParseResult<Self> {
         let mut lookahead = Lookahead::new(lexer);
         if lookahead.peek(Token::U8Keyword) {
             Ok(Self::U8(lexer.next().unwrap().1))
